@@ -24,53 +24,91 @@ const (
 	verifNew = "||new.example^\n||newer.example^\n"
 )
 
+// verifServed is the list text the (stub or loopback) server currently serves.
+var verifServed = verifNew
+
+const verifNew2 = "||third.example^\n"
+
 // VerifC13Refreshable: whatever goes wrong while a list is downloaded, the cached
 // copy on disk is afterwards either the previous complete list or the new complete
 // list, an error is reported exactly when no usable text was obtained, and a fresh
 // enough cached copy is used without any download.
 //
-//verif:harness name=H13a-refreshable tier=quick,thorough bounds="one refresh round of one list: cache file absent / present-and-fresh / present-and-stale; download outcome from {ok, connection error, 404, 500, empty body, oversized body, truncated transfer}, body length announced or streamed (Content-Length known / -1); temp-file creation and the atomic replace may fail (symbolic build only)" reach=downloaded,used-cache,failed maxpaths=20000
+//verif:harness name=H13a-refreshable tier=quick bounds="two consecutive refresh rounds of one list (the second 2 h or 1 min later, new list version, independent outcome); per round: cache file absent / present-and-fresh / present-and-stale; download outcome from {ok, connection error, 404, 500, empty body, oversized body, truncated transfer}, body length announced or streamed (Content-Length known / -1); temp-file creation and the atomic replace may fail (symbolic build only)" reach=downloaded,used-cache,failed,second-round maxpaths=200000
 //verif:assume symbolic build: os/renameio/HTTP client calls are stubs over a ghost file system in which only CloseAtomicallyReplace changes the destination (rename(2) atomicity is the kernel's); native replay uses a real temp dir and a loopback HTTP server
-func VerifC13Refreshable() {
+func VerifC13Refreshable() { verifC13Refreshable(2) }
+
+// VerifC13Refreshable2 runs three consecutive refresh rounds: each starts from whatever
+// the previous one left on disk and downloads a different list version.
+//
+//verif:harness name=H13a-refreshable2 tier=thorough bounds="as H13a-refreshable with three rounds" reach=downloaded,used-cache,failed,second-round maxpaths=2000000
+//verif:assume as H13a-refreshable
+func VerifC13Refreshable2() { verifC13Refreshable(3) }
+
+func verifC13Refreshable(rounds int) {
 	env := verifNewEnv()
 	defer env.close()
 	cacheKind := verifChoice(3) // 0 absent, 1 fresh, 2 stale
 	const staleness = time.Hour
 	now := time.Unix(1_700_000_000, 0)
+	prevExists, prev := false, ""
 	switch cacheKind {
 	case 1:
 		env.putCache(verifOld, now.Add(-time.Minute))
+		prevExists, prev = true, verifOld
 	case 2:
 		env.putCache(verifOld, now.Add(-2*time.Hour))
+		prevExists, prev = true, verifOld
 	}
-	fault := verifChoice(verifFaultN)
-	env.setFault(fault)
-	// whether the server announces the body length or streams it (chunked transfer)
-	env.setChunked(verifChoice(2) == 1)
 	r := env.newRefreshable(staleness, uint64(len(verifNew)+4))
-	env.setNow(now)
+	fresh := cacheKind == 1
+	served := verifNew
+	for round := 0; round < rounds; round++ {
+		if round >= 1 {
+			verifReach("second-round")
+			served = []string{verifNew, verifNew2, verifNew}[round]
+			if verifChoice(2) == 0 {
+				now = now.Add(2 * time.Hour)
+				fresh = false
+			} else {
+				now = now.Add(time.Minute)
+				// fresh only if the file was (re)written or already fresh in round 1
+				fresh = prevExists && env.cacheAge(now) < staleness
+			}
+		}
+		verifServed = served
+		fault := verifChoice(verifFaultN)
+		env.setFault(fault)
+		// whether the server announces the body length or streams it (chunked transfer)
+		env.setChunked(verifChoice(2) == 1)
+		env.setNow(now)
+		dlBefore := env.downloads()
 
-	text, err := r.Refresh(context.Background(), false)
-	after, exists := env.readCache()
+		text, err := r.Refresh(context.Background(), false)
+		after, exists := env.readCache()
 
-	// the destination is never partial or foreign
-	verifAssert("cache-file-is-previous-or-new-complete-version", !exists || after == verifOld || after == verifNew)
-	if cacheKind == 0 {
-		verifAssert("no-file-or-the-new-complete-version", !exists || after == verifNew)
-	} else {
-		verifAssert("existing-cache-never-removed", exists)
-	}
-	switch {
-	case cacheKind == 1:
-		verifAssert("fresh-cache-used-without-download", err == nil && text == verifOld && env.downloads() == 0 && after == verifOld)
-		verifReach("used-cache")
-	case env.effectiveFault() == verifFaultNone:
-		verifAssert("successful-download-returns-and-stores-the-new-list", err == nil && text == verifNew && exists && after == verifNew)
-		verifReach("downloaded")
-	default:
-		verifAssert("failed-download-is-reported", err != nil && text == "")
-		verifAssert("failed-download-keeps-the-previous-version", (cacheKind == 0 && !exists) || (cacheKind != 0 && after == verifOld))
-		verifAssert("temporary-file-cleaned-up", env.tempFilesLeft() == 0)
-		verifReach("failed")
+		// the destination is never partial or foreign
+		verifAssert("cache-file-is-previous-or-new-complete-version", (!exists && !prevExists) || (exists && prevExists && after == prev) || (exists && after == served))
+		if prevExists {
+			verifAssert("existing-cache-never-removed", exists)
+		}
+		switch {
+		case fresh:
+			verifAssert("fresh-cache-used-without-download", err == nil && text == prev && env.downloads() == dlBefore && after == prev)
+			verifReach("used-cache")
+		case env.effectiveFault() == verifFaultNone:
+			verifAssert("successful-download-returns-and-stores-the-new-list", err == nil && text == served && exists && after == served)
+			verifReach("downloaded")
+		default:
+			verifAssert("failed-download-is-reported", err != nil && text == "")
+			verifAssert("failed-download-keeps-the-previous-version", (!prevExists && !exists) || (prevExists && after == prev))
+			verifAssert("temporary-file-cleaned-up", env.tempFilesLeft() == 0)
+			verifReach("failed")
+		}
+		if exists && (!prevExists || after != prev) {
+			// the file was replaced in this round: its modification time is this round's instant
+			env.stampCache(now)
+		}
+		prevExists, prev = exists, after
 	}
 }
